@@ -4,6 +4,7 @@ use crate::framework::{dec_bytes, run_proptest, Ctx, Fam, Outcome};
 use crate::gen;
 use crate::parsefam::{self as pf, Acc};
 use crate::refjson::{ref_parse, utf8_offsets, RefParse, SurKind};
+use proptest::prelude::*;
 use serde_json::{json, Value as J};
 
 pub const CLASSES: &[&str] = &[
@@ -307,6 +308,43 @@ pub fn run(ctx: &mut Ctx) {
 		fam.sample(|| json!({"text": "[1, 2]", "stream_error_at_char": 3}));
 		ctx.add(fam);
 	}
+	if ctx.wants("U_two_faults") {
+		let n = ctx.pick(60_000, 800_000);
+		let fam = Fam::new("U_two_faults", "proptest: a rendered tree in which strings may hold literal U+FFFD and injected unpaired/lone surrogate escapes, optionally one character mutation, and then 1..=2 ill-formed byte sequences inserted at random byte positions: parse_slice(_with) must report the *first* fault in stream order with the right variant, offset and payload (InvalidUtf8 at valid_up_to unless a syntax or surrogate error is strictly earlier); non-trivial = the input is ill-formed UTF-8 and an earlier surrogate/syntax fault or a literal U+FFFD precedes the ill-formed sequence", false);
+		let fam = run_proptest(
+			ctx,
+			fam,
+			n,
+			|| {
+				(
+					gen::arb_value(gen::ValueCfg::SMALL),
+					gen::arb_choices(),
+					proptest::collection::vec((any::<u16>(), prop_oneof![2 => super::c12::arb_elements(), 1 => Just("\u{fffd}".to_string()), 1 => Just("a\u{fffd}\u{fffd}b".to_string())]), 0..=2),
+					proptest::collection::vec(gen::arb_mutation(), 0..=1),
+					proptest::collection::vec((any::<u16>(), prop::sample::select(vec![vec![0xffu8], vec![0xc0, 0xaf], vec![0xed, 0xa0, 0x80], vec![0xf4, 0x90, 0x80, 0x80], vec![0x80], vec![0xe2, 0x82], vec![0xc3], vec![0xf8, 0x88, 0x80, 0x80, 0x80]])), 1..=2),
+				)
+			},
+			|(v, ch, inj, muts, bad)| {
+				let bytes = two_faults_input(v, ch, inj, muts, bad);
+				match property(&bytes, &TWO_EPS) {
+					Ok((class, _)) => {
+						let v = std::str::from_utf8(&bytes).err().map(|e| e.valid_up_to());
+						let nt = match v {
+							Some(v) => {
+								let prefix = String::from_utf8_lossy(&bytes[..v]);
+								prefix.contains('\u{fffd}') || prefix.contains("\\u") || class != 6
+							}
+							None => false,
+						};
+						Outcome::ok(nt, vec![CLASSES[class]])
+					}
+					Err(m) => Outcome::fail(m),
+				}
+			},
+			|(v, ch, inj, muts, bad)| pf::case_json(&two_faults_input(v, ch, inj, muts, bad), &json!({})),
+		);
+		ctx.add(fam);
+	}
 	if ctx.wants("F5_grammar_mutation") {
 		let n = ctx.pick(20_000, 500_000);
 		let fam = Fam::new("F5_grammar_mutation", "proptest: rendered random tree + 1..=3 mutations, all entry points", false);
@@ -328,6 +366,23 @@ pub fn run(ctx: &mut Ctx) {
 	}
 	ctx.assume("the reference automaton's dead state coincides with 'cannot be extended to a valid text' (every live state of the RFC 8259 grammar is co-reachable)");
 	ctx.assume("a surrogate error's span is read as: non-empty, within [backslash of the offending escape, end of the string element that follows it], touching one of the escapes involved");
+}
+
+fn two_faults_input(v: &crate::refvalue::RefValue, ch: &[u8], inj: &[(u16, String)], muts: &[gen::Mutation], bad: &[(u16, Vec<u8>)]) -> Vec<u8> {
+	let text = gen::render_doc(v, ch, gen::RenderCfg::FREE);
+	let text = super::c12::inject(&text, inj);
+	let mut chars: Vec<char> = text.chars().collect();
+	for m in muts {
+		gen::apply_mutation(&mut chars, m);
+	}
+	let mut bytes: Vec<u8> = chars.into_iter().collect::<String>().into_bytes();
+	for (sel, seq) in bad {
+		let p = gen::map_index(*sel, bytes.len() + 1);
+		for (k, b) in seq.iter().enumerate() {
+			bytes.insert(p + k, *b);
+		}
+	}
+	bytes
 }
 
 pub fn surrogate_tokens() -> Vec<String> {
